@@ -40,6 +40,10 @@ class TypeScriptHeaderParser(BaseHeaderParser):
         """
         if not code or not code.strip():
             return None
+        # Without a comment terminator nothing can match, and the pattern below would
+        # back-track cubically over the blanks that follow an unterminated "/**"
+        if "*/" not in code:
+            return None
 
         match = self.JSDOC_PATTERN.match(code)
         if not match:
